@@ -154,10 +154,38 @@ def tableMulti (n : Nat) (maxLs : List α) (m : Nat) (law : α → α) : List (L
   (List.range m).map fun k =>
     (maxLs.map fun M => edge n M (k + 1), maxLs.map fun M => law (edge n M (k + 1)))
 
-/-- Look-up on a per-point table: the class is selected with the FIRST point's load column and the first entry of
-the load Series (as the code does); every point gets `sign(x_j) · value_j` of that class.  An empty Series is
-not modelled (the code raises `IndexError`). -/
-def lookupMulti (tbl : List (List α × List α)) (xs : List α) : Option (List α) :=
+/-- `Series.fillna(0)` of the Series look-up on a single table: NaN (the only value with `¬ x ≤ x`) becomes `0`
+(so does its sign); the identity on every number. -/
+def fillna0 (x : α) : α := if x ≤ x then x else 0
+
+/-- One entry of a Series look-up on a single table (`load.fillna(0)`, then as the scalar look-up). -/
+def lookupSeries (tbl : List (α × α)) (x : α) : Option α := lookup tbl (fillna0 x)
+
+/-- Column `j` of a per-point table: the rows `(load, value)` of point `j`, i.e. the table the point reads. -/
+def column (tbl : List (List α × List α)) (j : Nat) : List (α × α) :=
+  tbl.map fun r => (r.1.getD j 0, r.2.getD j 0)
+
+/-- Per-point look-ups for the points `j, j+1, …` with the loads `xs` (paired by position): every point is looked up
+in its own column; one point outside its range makes the whole look-up fail. -/
+def lookupFrom (tbl : List (List α × List α)) : Nat → List α → Option (List α)
+  | _, [] => some []
+  | j, x :: xs =>
+    match lookup (column tbl j) x, lookupFrom tbl (j + 1) xs with
+    | some v, some vs => some (v :: vs)
+    | _, _ => none
+
+/-- Look-up on a per-point table of `p` points, REPAIRED behaviour (`tools/fixes/C07-binned-per-point-class.diff`):
+the loads are paired with the points by position (the index labels of the Series are not used); every point
+selects the class in its own load column and is checked against its own range; `none` (`ValueError`) when a point
+is out of its range or when the Series does not hold exactly one load per point. -/
+def lookupMulti (p : Nat) (tbl : List (List α × List α)) (xs : List α) : Option (List α) :=
+  if xs.length = p then lookupFrom tbl 0 xs else none
+
+/-- Look-up on a per-point table as coded BEFORE the repair (kept for the refutation theorem and for recognising
+the recorded defect): the class is selected with the FIRST point's load column and the first entry of the load
+Series; every point gets `sign(x_j) · value_j` of that class; only the first point is checked against its range.
+An empty Series is not modelled (the code raises `IndexError`). -/
+def lookupMultiFirst (tbl : List (List α × List α)) (xs : List α) : Option (List α) :=
   match xs with
   | [] => none
   | x0 :: _ =>
